@@ -34,6 +34,26 @@ def decFields (v : V) : Option (List (List Nat × List Nat)) := do
     | [a, b] => pure (← a.cps?, ← b.byteNats?)
     | _ => none)
 
+/-- a pre-filled result: `[[[name,[value,…]],…], [[name,[[filename,body,ctype],…]],…]]` (what `encForm` writes) -/
+def decForm (v : V) : Option Form := do
+  match ← v.list? with
+  | [as, fs] =>
+    let args ← (← as.list?).mapM (fun p => do
+      match ← p.list? with
+      | [n, vs] => pure (← n.cps?, ← (← vs.list?).mapM (fun x => x.byteNats?))
+      | _ => none)
+    let files ← (← fs.list?).mapM (fun p => do
+      match ← p.list? with
+      | [n, xs] =>
+        let l ← (← xs.list?).mapM (fun x => do
+          match ← x.list? with
+          | [fn, body, ct] => pure ({ filename := ← fn.cps?, body := ← body.byteNats?, contentType := ← ct.cps? } : File)
+          | _ => none)
+        pure (← n.cps?, l)
+      | _ => none)
+    pure { arguments := args, files := files }
+  | _ => none
+
 def handle (toks : List String) : String :=
   match toks.mapM V.parse with
   | none => err "bad-token"
@@ -49,6 +69,11 @@ def handle (toks : List String) : String :=
       | some en, some mp, some mh, some b, some body =>
         ok [encRes (parseMultipart { enabled := en, maxParts := mp, maxPartHeaderSize := mh } b body {})]
       | _, _, _, _, _ => err "bad-arg"
+    | [.atom "multipart", en, mp, mh, b, body, pre] =>
+      match en.bool?, mp.nat?, mh.nat?, b.byteNats?, body.byteNats?, decForm pre with
+      | some en, some mp, some mh, some b, some body, some f =>
+        ok [encRes (parseMultipart { enabled := en, maxParts := mp, maxPartHeaderSize := mh } b body f)]
+      | _, _, _, _, _, _ => err "bad-arg"
     | [.atom "encode", form, b, parts] =>
       match form.atom?, b.byteNats?, decParts parts with
       | some "q", some b, some ps => ok [V.ofByteNats (Spec.encodeMultipart b ps)]
@@ -61,6 +86,11 @@ def handle (toks : List String) : String :=
     | [.atom "formenc", fields] =>
       match decFields fields with
       | some fs => ok [V.ofByteNats (Spec.encodeUrlencoded fs),
+                       .list ((Spec.expectedFields fs).map (fun (n, vs) => .list [V.ofCps n, .list (vs.map V.ofByteNats)]))]
+      | none => err "bad-arg"
+    | [.atom "formenc8", fields] =>
+      match decFields fields with
+      | some fs => ok [V.ofByteNats (Spec.encodeUrlencodedUtf8 fs),
                        .list ((Spec.expectedFields fs).map (fun (n, vs) => .list [V.ofCps n, .list (vs.map V.ofByteNats)]))]
       | none => err "bad-arg"
     | _ => err "bad-cmd"
